@@ -135,12 +135,15 @@ BOUNDARY_EXPRS = [
     "2 ** -5000", "1 << 4095 >> 4000", "(1 << 4095) // 3", "(1 << 4095) % 1000", "-(1 << 4095) & 255", "(1 << 4095) | 1", "(1 << 4095) ^ -1",
     "(1 << 4095) - (1 << 4095)", "-(1 << 4095) - (1 << 4095)", "x * (1 << 4093)", "x * (1 << 4094)",
     "2 ** 12", "2 ** 2 ** 3", "2 ** 2 ** 12", "[1 << 4095, 1 << 4096]", "max(1 << 4095, 2)", "1 if 1 << 4096 else 2",
+    # sensor model names (Ultrasonic(trig, echo, model=<e>) folds <e> through the constant environment)
+    "'HC-SR04'", "'hc_sr04'", "' hc-sr04 '", "'HC-SR' + '04'", "'HC-SR05'", "t", "t + ''", "'HC-SR0' + str(4)", "f'HC-SR0{4}'",
+    "f'{t}'", "'hc-sr04' if x else 'none'", "s or 'HC-SR04'", "t * 1", "'HC-SR04' if m else t", "str(t)", "'HC-' + 'SR04' * b",
 ]
 ENV_POOL = [
-    {"x": 5, "y": 2.5, "b": True, "s": "ab", "l": [1, 2, 3], "m": MARK},
+    {"x": 5, "y": 2.5, "b": True, "s": "ab", "l": [1, 2, 3], "m": MARK, "t": "hc-sr04"},
     {"x": 0, "y": -0.5, "b": False, "s": "", "l": [], "m": MARK},
-    {"x": -7, "y": 3.0, "b": True, "s": "12", "l": (4, 5), "m": MARK},
-    {"x": 255, "y": 0.25, "b": False, "s": " 7 ", "l": [0], "m": 3},
+    {"x": -7, "y": 3.0, "b": True, "s": "12", "l": (4, 5), "m": MARK, "t": "HC_SR04"},
+    {"x": 255, "y": 0.25, "b": False, "s": " 7 ", "l": [0], "m": 3, "t": "HC-SR05"},
     {},
 ]
 RT_FILL = {"m": 9, "u": 4}
@@ -279,14 +282,16 @@ def layer_a(ctx, stats):
     n_sites = 1500 if thorough else 350
     pick = site_jobs if len(site_jobs) <= n_sites else rng.sample(site_jobs, n_sites)
     pick = pick + [j for j in site_jobs if j[0].count(",") >= 6 and j not in pick]       # every bitmap-shaped expression
+    pick = pick + [j for j in site_jobs if ("HC" in j[0].upper() or re.search(r"\bt\b", j[0])) and j not in pick]   # every sensor-model-shaped one
     pick = [j for j in pick if site_env_ok(j[1]) and "\n" not in j[0] and "#" not in j[0]]
     payload = []
     for src, env, *_ in pick:
         ie = impl_env(env)
-        payload += [["site", "blink", src, ie], ["site", "backlight", src, ie], ["site", "glyph", src, ie], ["site", "sleep", src, ie]]
+        payload += [["site", "blink", src, ie], ["site", "backlight", src, ie], ["site", "glyph", src, ie], ["site", "sleep", src, ie],
+                    ["site", "pin", src, ie], ["site", "model", src, ie]]
     res = C.run_impl("c03_impl.py", {"cases": payload}) if payload else []
     for k, (src, env, msites, mres, exact, py, rt) in enumerate(pick):
-        rb, rl, rg, rs = res[4 * k: 4 * k + 4]
+        rb, rl, rg, rs, rp, rm = res[6 * k: 6 * k + 6]
         case = {"expr": src, "env": {kk: ("<marker>" if v is MARK else v) for kk, v in env.items()}}
         # ---- oracle: the constant baked in at a call site is the value CPython gives the argument expression
         if py is not None and py[0] == "ok":
@@ -294,6 +299,7 @@ def layer_a(ctx, stats):
             special = isinstance(pv, tuple) and bool(pv) and pv[0] == "special"
             for site, ro, want in (("led.blink(<e>, 1)", rb, lambda v: int(v) if type(v) in (int, float, bool) else None),
                                    ("sleep(<e>)", rs, lambda v: int(v) if type(v) in (int, float, bool) else None),
+                                   ("Led(<e>)", rp if "," not in src else ["skip"], lambda v: int(v) if type(v) in (int, float, bool) else None),
                                    ("lcd.backlight(<e>)", rl, lambda v: bool(v) if type(v) in (int, float, bool) else None),
                                    ("lcd.glyph(0, <e>)", rg, lambda v: [int(x) for x in v] if type(v) in (list, tuple) and all(type(x) in (int, float, bool) for x in v) else None)):
                 if ro[0] != "folded" or special:
@@ -311,6 +317,20 @@ def layer_a(ctx, stats):
                 if exp != got or type(exp) is not type(got):
                     ctx.fail(f"the constant folded into {site} is not the run-time value of the argument", {**case, "runtime_env": rt, "site": site},
                              exp, got, key="fold-site")
+            # the sensor model the firmware drives is the one the expression names at run time
+            if rm[0] == "folded" and "," not in src and not special:
+                stats["oracle:site-folds"] += 1
+                stats["oracle:sensor-model-folds"] += 1
+                got = untag(rm[1])
+                if not (isinstance(pv, str) and pv.strip().upper().replace("_", "-") == got):
+                    ctx.fail("the sensor model folded into Ultrasonic(7, 8, model=<e>) is not the model the argument names at run time",
+                             {**case, "runtime_env": rt, "site": "Ultrasonic(7, 8, model=<e>)"}, pv, got, key="fold-site")
+        stats["site:pin:" + rp[0]] += 1
+        stats["site:model:" + rm[0]] += 1
+        # Led(<e>) is int(_eval_const(...)) on name-free arguments, like sleep(...)
+        d = cmp_site(msites[3], rp, lambda w: w, exact) if "," not in src else None
+        if d and not d.startswith("skip"):
+            ctx.disagree(f"call site Led(<pin>): {d}", case, msites[3], rp)
         mnum, mbool, mgly, mslp = msites
         for name, mo, ro, conv in (("blink/_resolve_numeric_arg", mnum, rb, lambda w: w),
                                    ("backlight/_resolve_bool_arg", mbool, rl, lambda w: bool(w)),
@@ -324,7 +344,7 @@ def layer_a(ctx, stats):
         d = cmp_site(mslp, rs, lambda w: w, exact)
         if d and not d.startswith("skip"):
             ctx.disagree(f"call site sleep: {d}", case, mslp, rs)
-    return len(cases) + len(payload), len(distinct), [cases[0][0], cases[len(BOUNDARY_EXPRS)][0], cases[-1][0]]
+    return len(cases) + len(payload), len(distinct), [cases[0][0], cases[min(len(BOUNDARY_EXPRS), len(cases) - 1)][0], cases[-1][0]]
 
 
 def site_env_ok(env):
@@ -365,6 +385,7 @@ def cmp_site(mo, ro, conv, exact):
 INT_N, STR_N, LIST_N, RT_N = ["va", "vb", "vc", "vd"], ["vs", "vt", "vu"], ["vp", "vq"], ["vm", "vr"]
 LOOPV = ["vi", "vj", "vk"]
 LOCAL_N = ["vx", "vy", "vz"]           # locals of function bodies (vx, vz: str; vy: int)
+HANDLER_MARK = "##handler"
 TMP_PREFIX = "__tmp_assign_"           # the temporaries of a tuple assignment (the real transpiler's own names)
 ALLV = INT_N + STR_N + LIST_N + RT_N + LOOPV + LOCAL_N
 RT_PINS = {17: 5, 18: 1, 19: 0, 20: 2}
@@ -628,9 +649,22 @@ class ProgGen:
                 if not self.guarded and rng.random() < 0.05 and self.bound(env, LIST_N):
                     return ("flash", rng.choice(self.bound(env, LIST_N)))
             elif depth < self.maxdepth:
-                kind = rng.choice(["if", "if", "while", "for"])
+                kind = rng.choice(["if", "if", "if", "try", "while", "while", "for", "for"])
                 self.forbid.append({x for x, b in env.items() if b[0] == "K"})
                 try:
+                    if kind == "try":
+                        # try: body / except: handler - the transpiler gives the body and every handler a child context
+                        # copied from the snapshot, exactly as for if / else; a body that raises nothing is, for Python,
+                        # `if True: body else: handler` - that is how the model sees it (oracle decision 1, no read)
+                        entry_known = {x for x, b in env.items() if b[0] == "K"}
+                        t0 = set(self.taint)
+                        a = self.block(self.child(env), depth + 1, rng.randint(1, 3))
+                        self.taint = set(t0)
+                        b = self.block(self.child(env), depth + 1, rng.randint(1, 2)) if rng.random() < 0.4 else ([], {})
+                        self.promote(env, a[1]); self.promote(env, b[1])
+                        node = ("if", a[0], b[0], "try")
+                        self.taint = t0 | (self.written(node) & entry_known)
+                        return node
                     if kind == "if":
                         if self.flow and not self.noflow:
                             return self.if_chain(env, depth)
@@ -1159,6 +1193,12 @@ def render_prog(p, sfx, header=True):
                 lines.append(f"{pad}mon.write({rn(s[1])})")
             elif k == "aug":
                 lines.append(f"{pad}{rn(s[1])} {s[2]}= {rn(s[3])}")
+            elif k == "if" and len(s) > 3 and s[3] == "try":
+                lines.append(f"{pad}try:")
+                block(s[1], lvl + 1)
+                lines.append(f"{pad}except:")
+                lines.append(f"{pad}    mon.write(\"{HANDLER_MARK}\")")       # CPython got into the handler: the run is outside the model
+                block(s[2], lvl + 1)
             elif k == "if":
                 cid[0] += 1
                 c = f"c{cid[0]}_{sfx}"
@@ -1227,6 +1267,9 @@ def walk_oracle(p, rng, budget=60):
                 block(defs[s[1]])
                 calls.append(main + orc)
                 orc = main
+            elif s[0] == "if" and len(s) > 3 and s[3] == "try":
+                orc.append(1)
+                block(s[1])
             elif s[0] == "if":
                 d = rng.choice([0, 1])
                 orc.append(d); dr.append(d)
@@ -1424,6 +1467,8 @@ WITNESSES = {
     "F-C03-def-time-global": {
         "prog": [("assign", "vs", "'ab'"), ("def", "fn", [("va", "int")], [("len", "vs")]), ("assign", "vs", "'abcdef'"),
                  ("call", "fn", ["0"], [0])], "dr": [], "ar": []},
+    "F-C03-stale-after-try": {
+        "prog": [("assign", "vs", "'abc'"), ("if", [("assign", "vs", "'abcdef'")], [], "try"), ("len", "vs")], "dr": [], "ar": []},
     "F-C03-unary-plus-identity": {
         "prog": [("assign", "vs", "f\"{+True}\""), ("len", "vs")], "dr": [], "ar": []},
 }
@@ -1466,6 +1511,8 @@ def run_real(progs, drs, ars, batch, loops=None):
             o["status"] = "rejected:" + o["static"]["status"]
         elif o["py"]["exc"]:
             o["status"] = "py-undefined:" + o["py"]["exc"]
+        elif ["S", HANDLER_MARK] in o["py"]["obs"]:
+            o["status"] = "py-undefined:exception-inside-try"
         else:
             runnable.append(i)
     # a sketch has one main loop: a program with `while True:` closes its group
@@ -1568,6 +1615,7 @@ def layer_b(ctx, stats):
             dmodel.setdefault(i, []).append(m)
     distinct = set()
     samples = []
+    failing = []
     for idx, (p, g, o, r, m, s) in enumerate(zip(progs, guarded, orcs, real, model, scripts)):
         body = s[len(HEADER):]
         case = {"script": s, "dr4": None, "oracle": o}
@@ -1667,14 +1715,78 @@ def layer_b(ctx, stats):
             if nobs >= 2:
                 distinct.add(body)
             if r["fw"] != r["py"]["obs"]:
-                ctx.fail("firmware observations (serial lines: folded lengths and run-time values of variables; flash pattern levels; glyph rows) differ from CPython's on a program inside the guard",
-                         {"script": s, "digital_read(4)": drs[idx], "analog_read(14)": ars[idx], "main_loop_passes": loops[idx]},
-                         r["py"]["obs"], r["fw"], key="stale-fold")
+                failing.append((idx, r["py"]["obs"], r["fw"]))
         elif fresh and r["status"] == "nocompile":
             stats["oracle:nocompile"] += 1
         if len(samples) < 3 and r["status"] == "ran" and fresh and len(body) < 500:
             samples.append(body)
+    # the smallest failing program first, shrunk (statements that are not needed for the failure are deleted)
+    failing.sort(key=lambda f: len(scripts[f[0]]))
+    what = ("firmware observations (serial lines: folded lengths and run-time values of variables; flash pattern levels; glyph rows) "
+            "differ from CPython's on a program inside the guard")
+    for n_f, (idx, pyo, fwo) in enumerate(failing):
+        p, sc = progs[idx], scripts[idx]
+        if n_f == 0:
+            small = shrink_program(ctx, p, orcs[idx], drs[idx], ars[idx], loops[idx])
+            if small is not None:
+                p, sc, pyo, fwo = small
+                stats["oracle:failing program shrunk"] += 1
+        ctx.fail(what, {"script": sc, "digital_read(4)": drs[idx], "analog_read(14)": ars[idx], "main_loop_passes": loops[idx]},
+                 pyo, fwo, key="stale-fold")
     return len(progs), len(distinct), samples, n_sk
+
+
+SIMPLE_KINDS = ("assign", "rt", "append", "remove", "len", "flash", "glyph", "val", "aug", "tuple")
+
+
+def deletions(p):
+    """every program obtained by deleting one simple statement (at any depth; the control structure, hence the run-time
+    decisions of the recorded path, stays as it is)"""
+    out = []
+
+    def rec(b, rebuild):
+        for i, st in enumerate(b):
+            if st[0] in SIMPLE_KINDS and len(b) > 1:
+                out.append(rebuild(b[:i] + b[i + 1:]))
+            elif st[0] == "if":
+                rec(st[1], lambda nb, i=i, st=st: rebuild(b[:i] + [(st[0], nb) + tuple(st[2:])] + b[i + 1:]))
+                rec(st[2], lambda nb, i=i, st=st: rebuild(b[:i] + [(st[0], st[1], nb) + tuple(st[3:])] + b[i + 1:]))
+            elif st[0] in ("while", "main"):
+                rec(st[1], lambda nb, i=i, st=st: rebuild(b[:i] + [(st[0], nb)] + b[i + 1:]))
+            elif st[0] == "for":
+                rec(st[2], lambda nb, i=i, st=st: rebuild(b[:i] + [(st[0], st[1], nb)] + b[i + 1:]))
+    rec(list(p), lambda nb: nb)
+    return out
+
+
+def still_fails(ctx, cands, orc, dr, ar, loops):
+    """-> per candidate None | (script, CPython observations, firmware observations): inside the guard (decided by the
+    extracted model), defined under CPython, firmware observations differ"""
+    if not cands:
+        return []
+    real, scripts, _ = run_real(cands, [dr] * len(cands), [ar] * len(cands), batch=1, loops=[loops] * len(cands))
+    model = ctx.model([[1, wire_prog(c), orc] for c in cands]) if ctx.exe else [None] * len(cands)
+    out = []
+    for c, r, m, sc in zip(cands, real, model, scripts):
+        ok = r["status"] == "ran" and r["fw"] != r["py"]["obs"]
+        if ok and m is not None:
+            ok = m != [2] and bool((m[1] and m[5][0]) or (m[6][0] and m[6][1]))
+        out.append((sc, r["py"]["obs"], r["fw"]) if ok else None)
+    return out
+
+
+def shrink_program(ctx, p, orc, dr, ar, loops, rounds=8):
+    if has_def(p):
+        return None
+    best = None
+    for _ in range(rounds):
+        cands = deletions(p)[:48]
+        res = still_fails(ctx, cands, orc, dr, ar, loops)
+        keep = [(c, r) for c, r in zip(cands, res) if r is not None]
+        if not keep:
+            break
+        p, best = min(keep, key=lambda cr: len(cr[1][0]))
+    return None if best is None else (p,) + best
 
 
 def replay_findings(ctx):
